@@ -19,21 +19,27 @@ package veneers
 //@   at-call "veneers.AssignmentValue.AsIR" let p := $arg2
 //@   ensures  path: result.1 == nil ==> result.0.Path == $p && result.0.Method == assignment.Method
 //
-// Option.AsIR: name, comments and arguments as configured, one IR assignment per configured assignment,
-// each converted for the same schemas, builders and root builder.
+// Option.AsIR: name and comments as configured, its OWN copy of the configured arguments (the same
+// configuration becomes an option of every selected builder; a later in-place rename on one of them must not
+// reach the others), one IR assignment per configured assignment, each converted for the same schemas,
+// builders and root builder.
 //@ func Option.AsIR
 //@   property C17
 //@   modifies nothing
 //@   at-call "veneers.Assignment.AsIR" each: $arg0 == opt.Assignments[$i + 1] && $arg1 == schemas && $arg2 == builders && $arg3 == root
-//@   ensures  fields: result.1 == nil ==> result.0.Name == opt.Name && result.0.Comments == opt.Comments && result.0.Args == opt.Arguments && len(result.0.Assignments) == len(opt.Assignments)
+//@   ensures  fields: result.1 == nil ==> result.0.Name == opt.Name && result.0.Comments == opt.Comments && len(result.0.Assignments) == len(opt.Assignments)
+//@   ensures  ownargs: result.1 == nil ==> len(result.0.Args) == len(opt.Arguments) && (base(result.0.Args) == 0 || fresh(result.0.Args)) && (forall a: int :: 0 <= a && a < len(opt.Arguments) ==> result.0.Args[a].Name == opt.Arguments[a].Name)
 //@   loop 0:
 //@     invariant count: len(assignments) == $i + 1 && (base(assignments) == 0 || fresh(assignments))
+//@   loop 1:
+//@     invariant args: len(args) == $i + 1 && (base(args) == 0 || fresh(args)) && (forall a: int :: 0 <= a && a <= $i ==> args[a].Name == opt.Arguments[a].Name)
 //
 // The value converters (mutually recursive through envelopes) only build new values.
 //@ func AssignmentValue.AsIR
 //@   property C17 C04
 //@   requires path: value.Envelope != nil ==> len(assignmentPath) >= 1
 //@   modifies nothing
+//@   ensures  ownargument: result.1 == nil && value.Argument != nil ==> result.0.Argument != nil && fresh(result.0.Argument) && result.0.Argument.Name == value.Argument.Name
 //
 //@ func AssignmentEnvelope.AsIR
 //@   property C17
